@@ -35,6 +35,8 @@ ChildShapes ==
         <<ChExpr(Wrap("tsnonnull", Ident("cb", TRUE, FnR("fd", Arr(<<PVNode("pv3")>>)))))>>,
         <<ChExpr(Wrap("tsas", Ident("cb", TRUE, PVNode("pv1"))))>>,
         <<ChExpr(Wrap("tsas", Call("g1", S(<<115>>))))>>,
+        \* a slots object that already carries the reserved `_` entry (pasted compiled output)
+        <<ChExpr(ObjLit(<< <<"default", Arrow(Lit(Num(1)))>>, <<"_", Lit(Num(1))>> >>))>>,
         <<ChText(<<"a">>)>>, <<ChElem(B)>>,
         <<ChElem(Elem(TagHtml("span"), <<Dir("kebab", <<"show">>, "", <<>>, AvExpr(Ident("sv", FALSE, Bool(TRUE))))>>, <<>>))>>,
         <<ChElem(Elem(TagHtml("i"), <<Dir("kebab", <<"foo">>, "", <<>>, AvExpr(Ident("dv", FALSE, Opq("vdv"))))>>, <<ChText(<<"a">>)>>))>>, <<ChExpr(Member("o1", "p", Opq("vo1p")))>>,
